@@ -11,8 +11,70 @@ let res_str (f : 'a -> string) (r : 'a res) : string =
 let str_result r =
   res_str (fun (s, c) -> pr "%s %d" (hex_of_bytes s) (int_of_nat c)) r
 
+let tok_str (t : tok) : string =
+  match t with
+  | TN x -> string_of_int (int_of_n x)
+  | TZ z -> string_of_int (int_of_z z)
+  | TB b -> if b then "t" else "f"
+  | TY bs -> "x" ^ hex_of_bytes bs
+
+let dec_result (r : tok list res option) : string =
+  match r with
+  | None -> "olderr"
+  | Some (Ok ts) -> "ok " ^ String.concat " " (List.map tok_str ts)
+  | Some Err -> "err"
+  | Some Fault -> "fault"
+
+let old_of (s : string) : n list option = if s = "_" then None else Some (bytes_of_hex s)
+
+(* layer names may carry parameters: v2session:<integrity alg>:<K1 hex>, aes:<key hex> *)
+let decode_layer (name : string) (old : n list option) (bs : n list) : string =
+  let d dec zero show = dec_result (run_decode dec zero show old bs) in
+  match String.split_on_char ':' name with
+  | ["rmcp"] -> d decode_rmcp rmcp_zero show_rmcp
+  | ["selector"] -> d decode_selector selector_zero show_selector
+  | ["v1session"] -> d decode_v1session v1session_zero show_v1session
+  | ["message"] -> d decode_message message_zero show_message
+  | ["opensessionrsp"] -> d decode_opensessionrsp opensessionrsp_zero show_opensessionrsp
+  | ["rakp1"] -> d decode_rakp1 rakp1_zero show_rakp1
+  | ["rakp2"] -> d decode_rakp2 rakp2_zero show_rakp2
+  | ["rakp4"] -> d decode_rakp4 rakp4_zero show_rakp4
+  | ["deviceid"] -> d decode_deviceid deviceid_zero show_deviceid
+  | ["chassis"] -> d decode_chassis chassis_zero show_chassis
+  | ["authcaps"] -> d decode_authcaps authcaps_zero show_authcaps
+  | ["ciphersuites"] -> d decode_ciphersuites ciphersuites_zero show_ciphersuites
+  | ["sessioninfo"] -> d decode_sessioninfo sessioninfo_zero show_sessioninfo
+  | ["setpriv"] -> d decode_setpriv setpriv_zero show_setpriv
+  | ["guid"] -> d decode_guid guid_zero show_guid
+  | ["reserve"] -> d decode_reserve reserve_zero show_reserve
+  | ["getsdrrsp"] -> d decode_getsdrrsp getsdrrsp_zero show_getsdrrsp
+  | ["sdrhdr"] -> d decode_sdrhdr sdrhdr_zero show_sdrhdr
+  | ["sdrrepoinfo"] -> d decode_sdrrepoinfo sdrrepoinfo_zero show_sdrrepoinfo
+  | ["sensorreading"] -> d decode_sensorreading sensorreading_zero show_sensorreading
+  | ["fsr"] -> d decode_fsr fsr_zero show_fsr
+  | ["dcmicaps"] -> d decode_dcmicaps dcmicaps_zero show_dcmicaps
+  | ["dcmimand"] -> d decode_dcmimand dcmimand_zero show_dcmimand
+  | ["dcmiopt"] -> d decode_dcmiopt dcmiopt_zero show_dcmiopt
+  | ["dcmimgmt"] -> d decode_dcmimgmt dcmimgmt_zero show_dcmimgmt
+  | ["dcmipower"] -> d decode_dcmipower dcmipower_zero show_dcmipower
+  | ["powerreading"] -> d decode_powerreading powerreading_zero show_powerreading
+  | ["dcmisensor"] -> d decode_dcmisensor dcmisensor_zero show_dcmisensor
+  | ["v2session"; alg; key] ->
+      (match integrity_sign (n_of_int (int_of_string alg)) (bytes_of_hex key) with
+       | Some sign -> d (decode_v2session sign) v2session_zero show_v2session
+       | None -> failwith "oracle: unsupported integrity algorithm")
+  | ["aes"; key] -> d (decode_aescbc (aes_dec (bytes_of_hex key))) aescbc_zero show_aescbc
+  | _ -> failwith ("oracle: unknown layer " ^ name)
+
 let handle (w : string list) : string =
   match w with
+  | ["cbcenc"; key; iv; pt] ->
+      hex_of_bytes (cbc_encrypt (aes_enc (bytes_of_hex key)) (bytes_of_hex iv) (bytes_of_hex pt))
+  | ["cbcdec"; key; iv; ct] ->
+      hex_of_bytes (cbc_decrypt (aes_dec (bytes_of_hex key)) (bytes_of_hex iv) (bytes_of_hex ct))
+  | ["hmac"; alg; key; msg] ->
+      hex_of_bytes (hmac_alg (n_of_int (int_of_string alg)) (bytes_of_hex key) (bytes_of_hex msg))
+  | ["dec"; layer; old; h] -> decode_layer layer (old_of old) (bytes_of_hex h)
   | ["bcd"; b] -> string_of_int (int_of_n (Impl.bcd_decode (n_of_int (int_of_string b))))
   | ["ones"; b] -> string_of_int (int_of_z (Impl.ones (n_of_int (int_of_string b))))
   | ["twos"; hi; lo; bits] ->
